@@ -652,7 +652,8 @@ def generator_error_stream(
 
     seen: List[Dict[str, Any]] = []
     if models is None:
-        models = [(c["name"], c["model"]) for c in corpus(ID) if c.get("kind") == "generator-error"] + generator_error_models()
+        models = [(c["name"], c["model"]) for c in corpus(ID) if c.get("kind") == "generator-error" and "missing" not in c]
+        models += generator_error_models()
         # every snippet of the model in which everything is implementation-specific, left out one at a time
         models = models + [("missing-snippet", SPECIFIC_MODEL)]
     for k, (name, text) in enumerate(models):
@@ -795,6 +796,10 @@ def oracle(ctx: Ctx) -> None:
     ctx.extra_cov["cli_runs"] = kinds
     pair_stream(ctx, scratch)
     generator_error_stream(ctx, scratch)
+    for c in corpus(ID):
+        if c.get("kind") == "generator-error" and "missing" in c:
+            # a witness of the missing-snippet sub-stream: this target without this snippet
+            generator_error_stream(ctx, scratch, only=("missing-snippet", c["target"], c["missing"]), models=[("missing-snippet", c["model"])])
     history_stream(ctx, scratch)
     subprocess_stream(ctx, scratch)
 
